@@ -1,8 +1,59 @@
-(* the generated tables as an [ftables]; the table-condition Records are proved for them further down (appended as proofs appear) *)
+(* the generated tables meet every table-condition Record of layer L2 *)
 From stdpp Require Import list numbers option.
-From L2 Require Import Model.
+From L2 Require Import Model Base Own Jobs Wake WakeInv Term GenTables.
 From Gen Require Import Tables.
 
-Definition gen_ftables : ftables := {|
-  ft_base := gen_tables; t_poll := g_poll; t_drain_pend := g_drain_pend; t_roj_pend := g_roj_pend; t_roj_park := g_roj_park;
-  t_wake_queue := g_wake_queue; t_wake_thread := g_wake_thread; t_dw_wake := g_dw_wake; t_dw_wake_with := g_dw_wake_with |}.
+Lemma gen_own_cond : own_cond gen_ftables.
+Proof.
+  split; cbn.
+  - intros st st' act H. destruct st; inversion H; subst; unfold keeps; cbn; intuition congruence.
+  - intros st ne st' p H. destruct st, ne; inversion H; subst; unfold keeps; cbn; intuition congruence.
+  - intros st st' c H. destruct st; inversion H; subst; unfold keeps; cbn; intuition congruence.
+  - intros st. destruct st; unfold keeps; cbn; intuition congruence.
+  - intros st e st' act H. destruct st, e; inversion H; subst; cbn; intuition congruence.
+  - intros f st st' act H. destruct st; cbn in H; try (inversion H; subst; cbn; intuition congruence).
+    destruct (f0 =? f); inversion H; subst; cbn; intuition congruence.
+  - intros st st' H. destruct st; inversion H; subst; cbn; intuition congruence.
+  - intros st Ho Hn. destruct st; cbn in *; try congruence; intuition congruence.
+  - intros st e st' d Ho Hn H. destruct st, e; cbn in *; try congruence; inversion H; subst; cbn; intuition congruence.
+  - intros st Ho Hn. destruct st; cbn in *; try congruence; eexists; (split; [reflexivity|done]).
+  - intros st Ho. destruct st; cbn in *; congruence.
+  - intros st H. destruct st; cbn in *; congruence.
+Qed.
+
+Lemma gen_jobs_cond : jobs_cond gen_ftables.
+Proof. split; cbn. intros st e st' H. by destruct st, e. Qed.
+
+Lemma gen_wake_cond : wake_cond gen_ftables.
+Proof.
+  split; cbn.
+  - intros st H. by destruct st.
+  - done.
+  - intros st st' H. destruct st; inversion H; by subst.
+  - intros st st' act H Hn. destruct st; inversion H; subst; congruence.
+  - by intros [].
+  - done.
+  - intros st ne st' p H Hn. destruct st, ne; inversion H; subst; congruence.
+  - done.
+  - done.
+  - intros st H. by destruct st.
+  - done.
+  - done.
+  - done.
+  - done.
+  - done.
+  - intros st H. by destruct st.
+  - done.
+  - by left.
+  - intros st [->|[->|[f ->]]]; done.
+  - done.
+  - intros st' [= <-]. done.
+  - intros st H. by destruct st.
+  - intros st e st' Hr H. destruct st, e; cbn in *; try congruence; inversion H; by subst.
+  - by intros [].
+  - by intros [].
+Qed.
+
+Theorem gen_all_cond : all_cond gen_ftables.
+Proof. split; [apply gen_own_cond|apply gen_jobs_cond|apply gen_wake_cond]. Qed.
+Print Assumptions gen_all_cond.
